@@ -50,6 +50,9 @@ func init() {
 			}
 			return c
 		}, c14CheckLoad)
+	// ... and LoadAndVerify itself documents that the loaded events are sorted by the ordering asked for
+	vfRapid("C11/ordering/load-and-verify", "non-trivial = as C14/load-and-verify (some input fails a stage, some passes); here the ORDER of the results is what is judged. distinct = distinct Case JSON",
+		600, 12000, 8, c14GenLoad, c14CheckLoad)
 	vfRapid("C14/load-and-verify", "at least one input fails a stage (parse, signature, auth chain, auth at state) or is listed twice, and at least one input passes every stage", 900, 16000, 8, c14GenLoad, c14CheckLoad)
 }
 
@@ -382,6 +385,31 @@ func c14CheckLoad(ctx *vfCtx, c c14LoadCase) {
 	c14JudgeLoad(ctx, c, items, expect, namedOnly, occurs, parseFails, dup, results, err)
 	if ctx.Failed() {
 		return
+	}
+	// C11: the loaded events come back in the ordering asked for - each after the ancestors (prev /
+	// auth events) it names among the loaded events - whether or not they passed the checks
+	{
+		pos := map[string]int{}
+		for i, r := range results {
+			if r.Event != nil {
+				pos[r.Event.EventID()] = i
+			}
+		}
+		for _, r := range results {
+			if r.Event == nil {
+				continue
+			}
+			refs := r.Event.PrevEventIDs()
+			if c.Order == "auth" {
+				refs = r.Event.AuthEventIDs()
+			}
+			for _, ref := range refs {
+				if pp, ok := pos[ref]; ok && pp > pos[r.Event.EventID()] {
+					ctx.Fail("C11/ordering/load-and-verify/ancestor-after-descendant", "LoadAndVerify (order by %s events) returned %s at position %d before the event %s it refers to at position %d", c.Order, r.Event.EventID(), pos[r.Event.EventID()], ref, pp)
+					return
+				}
+			}
+		}
 	}
 	// RequestBackfill on the same answer: the statement does not speak about it beyond LoadAndVerify,
 	// so only a crash is judged (it dereferences a result that has neither an event nor an error).
